@@ -13,6 +13,14 @@ claims = {
          "Sequential per-request argument; the sequencer goroutine's progress (liveness) and the window assumption revision-committed < 100000 (explicit panic, may_panic) are assumed. TSO.Deal / Creator / KvStorage are interface contracts (assumed here, verified or assumed per engine under C11)."),
  "C08": ("proof", "Ghost state 'floor' is the value under the compact key, defined by the assumed engine contract of Get/PutIfNotExist/CAS/Put/Commit. Proved: setCompactRecord, checkCompactRace, scan, scanner.Compact, backend.compact and backend.Compact never lower the floor and leave it >= the accepted revision; a successful checkCompactRace(rev,false) implies floor <= rev; every worker spawned by scan / run by rangeWithLimit requires that fact. The monotonicity obligation failed on the original tree (replayed on memkv, repaired by a fix: commit).",
          "Engine contract assumed (C11); concurrent compactions on several nodes are not modelled; safety obligations of scan/compact are not generated here (nosafety) and belong to C20."),
+ "C13": ("proof", "adjustPartitionsBorders is proved with a loop invariant for any number of partitions given in any order (sort.Slice assumed to permute): the result is chained (each start is the previous end) and every inner border that is a well-formed internal key has revision 0, so no key's versions are split; commonResultReceiver.merge/append/fork/reset/needMore are proved against their sequence specification (merge appends in order and keeps exactly the first limit); stream receivers: every data batch sent names the read revision and has More set, fork keeps stream and revision, getListStreamEnd builds the terminator, the RangeStream goroutine sends the terminator last and closes the stream. One obligation is a recorded finding: GetPartitions advertises engine borders unadjusted.",
+         "Borders are assumed decodable (>= 13 bytes). The composition 'per-piece snapshot + merge in piece order = snapshot of the interval' relies on the C03 worker contract (assumed here) and is argued in DESIGN.md, not machine-checked. Duplicates caused by a worker retry after batches were already streamed are outside the property's quantifier."),
+ "C05": ("proof", "The event cache: a monitor invariant on Ring (shape, non-nil slots, strictly increasing revisions over the live window) is assumed at Lock/RLock and re-proved at Unlock; Add appends and evicts only when full; FindEvents classifies empty/high/low exactly and otherwise returns exactly the cached events with revision >= the target, in order, across the wrap-around (both copy branches); the slot arithmetic i - rbase(i,l) is used opaquely through two lemmas proved from its definition (non-linear, z3 5.1). Lockset obligations: every read/write of s, e and the slots happens under the ring's lock in the matching mode.",
+         "Partly decided: the interleavings of watch registration with concurrent writes, consumer speeds and the hub's asynchronous drop are not decided by this check (see DESIGN.md C05); Add's precondition 'revision above everything cached' is an assumption justified by the single caller (call-graph obligation) and the sequencer order; fewer than 2^62 events are cached."),
+ "C16": ("proof", "The three transaction recognisers are proved sound and complete w.r.t. spec predicates for the four single-key shapes Kubernetes issues (compare key = put/delete key = failure-range key, no range_end, MOD/EQUAL compare), for all wire-decodable transactions; Txn is proved to make at most one backend call, none for a follower, exactly one for a supported shape on the leader, and to reject every other shape with an error without touching backend or proxy. Soundness failed on the original tree (replayed, repaired by a fix: commit).",
+         "Protobuf oneof getters are modelled from the generated code's shape; repeated fields decoded from the wire have no nil elements; response shaping in the backend shim (header, kv in the failure branch, count/more) is not yet under contract; put flags (ignore_value, ignore_lease, prev_kv) are outside the shape predicates."),
+ "C18": ("proof", "Per-request ghost flags: leader_checked is set only by IsLeader() returning true, synced only by SyncReadRevision() returning nil. Every call of a backend write, Compact or Watch in the etcd and native handlers (Txn, Create, Update, Delete, Compact, Watch, compactLoop, watcher.Watch) requires leader_checked; every backend read (Get, List, Count, GetPartitions, ListByStream in Range, Get, Range, Count, ListPartition, RangeStream, watcher.List) requires synced; followers and failed syncs leave the backend call counters unchanged.",
+         "Not decided: that a successful sync reflects every write committed before the read began when concurrent readers share one fetch (singleflight) -- no contract of it lets this be stated; the proxy forward path is counted, not verified; safety obligations of the handlers belong to C20 (nosafety here)."),
 }
 m = {
  "version": 1,
